@@ -54,3 +54,7 @@ Inductive key_mode := KeyAfterPostInit | KeyBeforePostInit | KeyUnknown.
 (* ProcessExecutor._consume_result_queue: is the liveness of the worker processes sampled before the result queue is drained
    (a worker that delivers its result and exits during the drain is then simply seen at the next call), or after it? *)
 Inductive snap_pos := SnapBefore | SnapAfter | SnapUnknown.
+
+(* ProcessExecutor._start_processes, launching one future: is it registered in the running table before it is removed from the
+   pending table (at every line boundary it is in at least one of them), or removed first? *)
+Inductive launch_order := RegisterThenRemove | RemoveThenRegister | LaunchUnknown.
